@@ -827,6 +827,9 @@ def series_computation(
     }
 
     def del_(series_name, index: int) -> None:
+        if tuple(index[2:]) == zeroth_order:
+            # Zeroth-order terms may be start values, which cannot be recomputed.
+            return
         series[series_name].pop(index, None)
         linear_operator_series[series_name].pop(index, None)
 
